@@ -222,31 +222,69 @@ def sampling(repo, chk):
 
 
 def stratum_buffers(repo, chk):
-    """In compute_entropies every per-stratum buffer that is filled by `for k, row in enumerate(ROWS): B[k] = ...` must be allocated
-    with exactly len(ROWS) slots (derived from the row set itself, which under subsampling is the *sampled* stratum - not from the
-    full-data count) and must be zero-initialised or fully written."""
+    """In compute_entropies every per-stratum buffer that is filled position by position inside a loop (`for k, row in enumerate(ROWS): B[k] = ...`
+    or `for k in range(len(ROWS)): B[k] = ... ROWS[k] ...`) must be allocated with exactly as many slots as the loop has iterations, and the
+    loop must range over the row set itself (which under subsampling is the *sampled* stratum), not over the full-data count."""
     fn = repo.func(MI, 'compute_entropies')
     m = fn.module
+    E = lambda src: expected_term(m, src)
+
+    def lenform(t):
+        if t[0] == 'attr' and t[2] == 'size':
+            return ('call', ('name', 'len'), (t[1],), ())
+        return t
     n = 0
-    for lp in [x for x in own_nodes(fn.node) if isinstance(x, ast.For)]:
-        it = lp.iter
-        if not (isinstance(it, ast.Call) and isinstance(it.func, ast.Name) and it.func.id == 'enumerate' and isinstance(lp.target, ast.Tuple)):
+    candidates = 0
+    par = parents(fn.node)
+    for st in [x for x in own_nodes(fn.node) if isinstance(x, ast.Assign) and isinstance(x.targets[0], ast.Subscript) and isinstance(x.targets[0].value, ast.Name) and isinstance(x.targets[0].slice, ast.Name)]:
+        B, k = st.targets[0].value.id, st.targets[0].slice.id
+        allocs = [a for a in own_nodes(fn.node) if isinstance(a, ast.Assign) and isinstance(a.targets[0], ast.Name) and a.targets[0].id == B and isinstance(a.value, ast.Call) and (m.dotted(a.value.func) or '') in ('numpy.zeros', 'numpy.empty', 'numpy.ones', 'numpy.full')]
+        if len(allocs) != 1:
             continue
-        rows = term_of(fn, it.args[0], inline=True)
-        k = lp.target.elts[0].id if isinstance(lp.target.elts[0], ast.Name) else None
-        for st in [x for x in ast.walk(lp) if isinstance(x, ast.Assign) and isinstance(x.targets[0], ast.Subscript) and isinstance(x.targets[0].value, ast.Name) and isinstance(x.targets[0].slice, ast.Name) and x.targets[0].slice.id == k]:
-            B = st.targets[0].value.id
-            allocs = [a for a in own_nodes(fn.node) if isinstance(a, ast.Assign) and isinstance(a.targets[0], ast.Name) and a.targets[0].id == B and isinstance(a.value, ast.Call) and (m.dotted(a.value.func) or '') in ('numpy.zeros', 'numpy.empty', 'numpy.ones', 'numpy.full')]
-            if len(allocs) != 1:
-                continue
-            size = term_of(fn, allocs[0].value.args[0], inline=True)
-            good_sizes = [('attr', rows, 'size'), ('call', ('name', 'len'), (rows,), ()), ('sub', ('attr', rows, 'shape'), ('num', 0))]
-            if rows[0] == 'call' and rows[1] == ('lib', 'numpy.where'):
-                continue
-            n += 1
-            chk.expect(size in good_sizes, 'C04.2b', 'R4', fn.site(allocs[0]), f'{ast.unparse(allocs[0])}  (filled over enumerate({ast.unparse(it.args[0])}))', 'the per-stratum buffer has one slot per row actually present in the (sampled) stratum',
-                       f'the buffer `{B}` is sized by {ast.unparse(allocs[0].value.args[0])} but filled over enumerate({ast.unparse(it.args[0])}): under subsampling the stratum holds fewer rows than the full-data count, so the tail of the buffer is never written (uninitialised memory with np.empty, spurious zero codes with np.zeros) and is counted into the score')
-    chk.require_count('per-stratum buffers filled by an enumerate loop in compute_entropies', n, 1)
+        lp = par.get(st)
+        while lp is not None and not (isinstance(lp, ast.For) and k in {x.id for x in ast.walk(lp.target) if isinstance(x, ast.Name)}):
+            lp = par.get(lp)
+        if lp is None:
+            continue
+        # a buffer allocated outside the stratum loop and filled once per stratum / class is not a per-row buffer
+        it = lp.iter
+        rows = None
+        trip = None
+        if isinstance(it, ast.Call) and isinstance(it.func, ast.Name) and it.func.id == 'enumerate' and isinstance(lp.target, ast.Tuple) and isinstance(lp.target.elts[0], ast.Name) and lp.target.elts[0].id == k:
+            rows = term_of(fn, it.args[0], inline=True)
+            trip = ('call', ('name', 'len'), (rows,), ())
+        elif isinstance(it, ast.Call) and (m.dotted(it.func) or '') in ('range', 'numba.prange') and len(it.args) == 1 and isinstance(lp.target, ast.Name):
+            trip = lenform(term_of(fn, it.args[0], inline=True))
+            read = [x for x in ast.walk(lp) if isinstance(x, ast.Subscript) and isinstance(x.ctx, ast.Load) and isinstance(x.slice, ast.Name) and x.slice.id == k and isinstance(x.value, ast.Name) and x.value.id != B]
+            if read:
+                rows = term_of(fn, read[0].value, inline=True)
+        else:
+            continue
+        if rows is None:
+            continue
+        if rows[:2] == ('call', ('lib', 'numpy.nonzero')):
+            continue      # the 1-tuple itself, not the row list
+        candidates += 1
+        size = lenform(term_of(fn, allocs[0].value.args[0], inline=True))
+        want = ('call', ('name', 'len'), (rows,), ())
+        n += 1
+        chk.expect(size == want and trip == want, 'C04.2b', 'R4', fn.site(allocs[0]), f'{ast.unparse(allocs[0])}  (filled over `for {ast.unparse(lp.target)} in {ast.unparse(it)}`)', 'the per-stratum buffer has one slot per row actually present in the (sampled) stratum, and the fill loop visits exactly those rows',
+                   f'the buffer `{B}` is sized by {ast.unparse(allocs[0].value.args[0])} and filled over `{ast.unparse(it)}`, which must both be the number of rows of the stratum\'s own row list: under subsampling the stratum holds fewer rows than the full-data count, so the tail of the buffer is never written (uninitialised memory with np.empty, spurious zero codes with np.zeros) and is counted into the score')
+    if n == 0:
+        # no position-by-position filled per-stratum buffer: accepted only when the displaced copy is visibly gathered in one vectorised read
+        Yp = fn.params[1]
+        gathers = []
+        for x in own_nodes(fn.node):
+            if isinstance(x, ast.Assign) and isinstance(x.targets[0], ast.Name):
+                t = term_of(fn, x.value, inline=True)
+                while t[0] == 'call' and t[1][0] == 'attr' and t[1][2] == 'astype':
+                    t = t[1][1]
+                if t[0] == 'sub' and t[1] == ('name', Yp) and any(isinstance(u, tuple) and u and (u[0] == '%' or u[:2] == ('call', ('lib', 'numpy.remainder')) or u[:2] == ('call', ('lib', 'numpy.mod'))) for u in walk_term(t[2])):
+                    gathers.append(x)
+        if gathers:
+            chk.ok('C04.2b', 'R4', fn.site(gathers[0]), ast.unparse(gathers[0])[:120], 'the displaced copy is gathered in one vectorised read: it has exactly one element per row of the (sampled) stratum by construction')
+        else:
+            chk.unsure('C04.2b', 'R4', fn.site(), 'per-stratum buffers in compute_entropies', 'neither an element-wise filled per-stratum buffer nor a vectorised gather of the displaced copy was recognised')
 
 
 def estimator(repo, chk):
